@@ -30,6 +30,47 @@ type netCfg struct {
 	LossView  int      `json:"loss_view"` // only payloads of this view are affected
 	LossTypes []string `json:"loss_types,omitempty"`
 	Favoured  []bool   `json:"favoured,omitempty"`
+	// scripted scenarios: any number of targeted rules, and receivers whose
+	// inbound link stalls (everything sent to them is kept, in order, and
+	// delivered in one burst when the link comes back)
+	Rules []lossRule `json:"rules,omitempty"`
+	Hold  []bool     `json:"hold,omitempty"`
+}
+
+// lossRule drops (Pct percent of) the messages it matches.
+type lossRule struct {
+	Kinds   []string `json:"kinds,omitempty"` // message kinds (payload, block, syncblock, tx, getdata); empty = payload
+	Types   []string `json:"types,omitempty"` // consensus payload types; empty = any
+	ViewMin int      `json:"view_min"`
+	ViewMax int      `json:"view_max"` // < 0: no upper limit
+	From    []bool   `json:"from,omitempty"`
+	To      []bool   `json:"to,omitempty"`
+	Pct     int      `json:"pct"`
+}
+
+func (r *lossRule) matches(from, to int, kind, sub string, view int) bool {
+	if len(r.Kinds) == 0 {
+		if kind != "payload" {
+			return false
+		}
+	} else if !slices.Contains(r.Kinds, kind) {
+		return false
+	}
+	if kind == "payload" {
+		if len(r.Types) > 0 && !slices.Contains(r.Types, sub) {
+			return false
+		}
+		if view < r.ViewMin || (r.ViewMax >= 0 && view > r.ViewMax) {
+			return false
+		}
+	}
+	if r.From != nil && !r.From[from] {
+		return false
+	}
+	if r.To != nil && !r.To[to] {
+		return false
+	}
+	return true
 }
 
 func quietCfg(n int) netCfg { return netCfg{Kind: "quiet"} }
@@ -84,6 +125,19 @@ func (c netCfg) summary() string {
 	if c.TypeLoss > 0 {
 		s += fmt.Sprintf(" %d%% of view-%d %v lost unless receiver in %v", c.TypeLoss, c.LossView, c.LossTypes, idx(c.Favoured))
 	}
+	if x := idx(c.Hold); x != nil {
+		s += fmt.Sprintf(" inbound-stalled=%v", x)
+	}
+	for _, r := range c.Rules {
+		s += fmt.Sprintf(" rule{%v %v views %d..%d", r.Kinds, r.Types, r.ViewMin, r.ViewMax)
+		if r.From != nil {
+			s += fmt.Sprintf(" from %v", idx(r.From))
+		}
+		if r.To != nil {
+			s += fmt.Sprintf(" to %v", idx(r.To))
+		}
+		s += fmt.Sprintf(" %d%%}", r.Pct)
+	}
 	return s
 }
 
@@ -105,10 +159,16 @@ type simnet struct {
 	linkSeen map[[2]int]int64 // highest sequence number delivered on a link
 	inflight map[int]int      // messages on their way to (or being handled by) a node
 	seq      int64
+	held     map[int][]heldMsg // backlog of a stalled inbound link, in sending order
+}
+
+type heldMsg struct {
+	from int
+	run  func()
 }
 
 func newSimnet(r *rng.R) *simnet {
-	return &simnet{r: r, cfg: netCfg{Kind: "quiet"}, counters: map[string]int64{}, linkSeq: map[[2]int]int64{}, linkSeen: map[[2]int]int64{}, inflight: map[int]int{}}
+	return &simnet{r: r, cfg: netCfg{Kind: "quiet"}, counters: map[string]int64{}, linkSeq: map[[2]int]int64{}, linkSeen: map[[2]int]int64{}, inflight: map[int]int{}, held: map[int][]heldMsg{}}
 }
 
 func (n *simnet) attach(cl *cluster) { n.cl = cl }
@@ -116,7 +176,31 @@ func (n *simnet) attach(cl *cluster) { n.cl = cl }
 func (n *simnet) setCfg(c netCfg) {
 	n.mu.Lock()
 	n.cfg = c
+	var release [][]heldMsg
+	for to, q := range n.held {
+		if len(q) > 0 && !c.flag(c.Hold, to) {
+			release = append(release, q)
+			n.counters["backlog_bursts"]++
+			n.counters["backlog_messages_released"] += int64(len(q))
+			delete(n.held, to)
+		}
+	}
 	n.mu.Unlock()
+	// the backlog of a link arrives in one burst: per sender in the order of
+	// sending, the senders concurrently
+	for _, q := range release {
+		bySender := map[int][]func(){}
+		for _, m := range q {
+			bySender[m.from] = append(bySender[m.from], m.run)
+		}
+		for _, fs := range bySender {
+			go func() {
+				for _, f := range fs {
+					f()
+				}
+			}()
+		}
+	}
 }
 
 func (n *simnet) getCfg() netCfg {
@@ -128,6 +212,14 @@ func (n *simnet) getCfg() netCfg {
 func (n *simnet) count(name string, d int64) {
 	n.mu.Lock()
 	n.counters[name] += d
+	n.mu.Unlock()
+}
+
+func (n *simnet) max(name string, v int64) {
+	n.mu.Lock()
+	if v > n.counters[name] {
+		n.counters[name] = v
+	}
 	n.mu.Unlock()
 }
 
@@ -170,9 +262,17 @@ func (n *simnet) send(from, to int, kind, sub string, view int, fn func()) {
 		n.mu.Unlock()
 		return
 	}
+	for i := range c.Rules {
+		if r := &c.Rules[i]; r.matches(from, to, kind, sub, view) && (r.Pct >= 100 || n.r.Intn(100) < r.Pct) {
+			n.counters["dropped_targeted"]++
+			n.mu.Unlock()
+			return
+		}
+	}
+	hold := c.flag(c.Hold, to)
 	// like a peer's send queue the path to a node is finite: a message storm
 	// loses messages instead of piling them up
-	if n.inflight[to] >= maxInflight {
+	if n.inflight[to] >= maxInflight || (hold && len(n.held[to]) >= 4*maxInflight) {
 		n.counters["dropped_receiver_queue_full"]++
 		n.mu.Unlock()
 		return
@@ -205,15 +305,19 @@ func (n *simnet) send(from, to int, kind, sub string, view int, fn func()) {
 		plans[i] = plan{d, n.seq}
 	}
 	n.wg.Add(copies)
-	n.inflight[to] += copies
-	n.mu.Unlock()
+	if !hold {
+		n.inflight[to] += copies
+	}
+	defer n.mu.Unlock()
 	for _, p := range plans {
 		p := p
 		run := func() {
 			defer n.wg.Done()
 			defer func() {
 				n.mu.Lock()
-				n.inflight[to]--
+				if !hold {
+					n.inflight[to]--
+				}
 				n.mu.Unlock()
 			}()
 			n.mu.Lock()
@@ -232,9 +336,13 @@ func (n *simnet) send(from, to int, kind, sub string, view int, fn func()) {
 			n.mu.Unlock()
 			fn()
 		}
-		if p.d == 0 {
+		switch {
+		case hold:
+			n.counters["held_in_backlog"]++
+			n.held[to] = append(n.held[to], heldMsg{from, run})
+		case p.d == 0:
 			go run()
-		} else {
+		default:
 			time.AfterFunc(p.d, run)
 		}
 	}
@@ -244,7 +352,14 @@ func (n *simnet) send(from, to int, kind, sub string, view int, fn func()) {
 func (n *simnet) close(timeout time.Duration) bool {
 	n.mu.Lock()
 	n.closed = true
+	held := n.held
+	n.held = map[int][]heldMsg{}
 	n.mu.Unlock()
+	for _, q := range held {
+		for _, m := range q {
+			m.run() // only counts: the network is closed
+		}
+	}
 	done := make(chan struct{})
 	go func() { n.wg.Wait(); close(done) }()
 	select {
